@@ -791,7 +791,7 @@ class _NodesTree:
                             break
                         new_nodes.pop()
                     continue
-                if len(new_nodes) > 1 and new_nodes[-2].type == 'error_node':
+                if len(new_nodes) > 1 and new_nodes[-2].type in ('error_leaf', 'error_node'):
                     # The problem here is that Parso error recovery sometimes
                     # influences nodes before this node.
                     # Since the new last node is an error node this will get
